@@ -289,4 +289,20 @@ CHECKS = {
         assumptions=["decided on this kernel/file system, running as root; symbolic links are outside the guarantee and never created",
                      "a bare stat() outside the export that leaves no trace in any result is not observable by this check"],
     ),
+    "C19": dict(
+        pkg="ufsx",
+        level="exploration",
+        groups=[G("^TestC19_Mirror$", 300, 2500)],
+        rule="histories of up to 30 (thorough 60) operations on SFileSys(ufs.NewServer(export)) over a small tree: create file (permission bits x open mode), mkdir, walk (incl. '..'), open "
+             "(OREAD/OWRITE/ORDWR/OEXEC with and without OTRUNC), read/write at offsets 0..60 and -1, chmod, truncate (0..4096, 2^63), rename (names from a small alphabet so that collisions and "
+             "renames onto existing files/dirs occur), remove, stat and listing through freshly walked fids. Oracle: a twin directory driven by the equivalent direct OS call per operation "
+             "(OpenFile(O_CREATE|flags, perm&0777), Mkdir, OpenFile(flags), ReadAt, WriteAt, Truncate, Chmod(mode&0777), rename(2), Remove); after every step the two trees must be identical "
+             "(names, types, permission bits, sizes, contents), the session must succeed exactly when the direct operation does, data read through a fid must equal the twin file's bytes, and fresh stats / "
+             "listings must match Lstat/ReadDir of the export (name, DMDIR/QTDIR, permission bits, length, whole-second mtime, qid path = inode). "
+             "Non-trivial = a write at offset > 0, a truncating open, a rename, chmod, mkdir or truncate happened.",
+        require_classes=dict(quick=["write_at_offset", "truncating_open", "rename", "chmod", "mkdir", "truncate", "create_file", "fresh_stat", "listing"], thorough=[]),
+        assumptions=["decided on this kernel/file system, as root, with the process umask fixed to 022",
+                     "create of an existing name: ufs opens the existing file; the twin does the same (OpenFile without O_EXCL), so both are compared, neither outcome is presumed",
+                     "walk/create on an already open fid and I/O through a fid walked in place while open are not asserted"],
+    ),
 }
